@@ -9,7 +9,7 @@ validating the trusted `Sem` layer against the compiled behaviour."""
 import copy, itertools, json, os, re, shutil
 import vlib
 from checks.c09 import vlib_corpus
-from specgen import disc_spec, own_field
+from specgen import disc_spec, own_field, site_spec, site_union
 
 KIDS = ["Cat", "Dog", "Emu"]
 
@@ -25,6 +25,13 @@ def prepare(case, arena=False):
     if not case["op"].startswith("disc."):
         return case
     i = case["in"]
+    if case["op"] == "disc.site":
+        spec, locs = site_spec(i["d"])
+        out = {"d": i["d"], "all": i.get("all", False), "spec": spec, "sites": locs, "mode": "client-mod",
+               "cfg": {"all_schemas": bool(i.get("all", False)), "no_helpers": True}}
+        if arena:
+            out["want_probes"] = True
+        return {"op": "disc.sitecode" if arena else "disc.site", "in": out}
     out = {"d": i["d"], "all": i.get("all", False), "spec": disc_spec(i["d"]), "mode": "client-mod",
            "cfg": {"all_schemas": bool(i.get("all", False))}}
     if i.get("?only") is not None:
@@ -247,6 +254,173 @@ def cases(ctx):
 
 
 # ------------------------------------------------------------------------------------------------
+# use sites: WHERE and HOW a discriminated union is written (op `disc.site`)
+
+SITE_LEAVES = ["User", "Team", "Squad"]
+# (pos, arr, wrap, on, typenull)
+SPELLINGS = (
+    [("named", a, w, on, False) for a in (False, True) for w, on in ((None, "inner"), ("oneOf", "inner"), ("anyOf", "inner"), ("oneOf", "outer"), ("anyOf", "outer"))]
+    + [("named", False, None, "inner", True)]
+    + [("field", False, w, on, False) for w, on in ((None, "inner"), ("oneOf", "inner"), ("anyOf", "inner"), ("oneOf", "outer"), ("anyOf", "outer"))]
+    + [("field", True, None, "inner", False), ("field", False, None, "inner", True)]
+    + [("io", a, w, on, False) for a in (False, True) for w, on in ((None, "inner"), ("oneOf", "inner"), ("anyOf", "outer"))]
+    + [("io", False, None, "inner", True)])
+# neighbour: (what, where, order)   what: plain | prop (other property name) | map (other mapping) ; where: field | samefield | named | items
+NEIGHBOURS = [None] + [(what, where, order) for what in ("plain", "prop", "map") for where in ("field", "samefield", "named", "items") for order in ("before", "after")]
+
+
+def site_leaves(n, style, alt):
+    out = []
+    for i, name in enumerate(SITE_LEAVES[:n]):
+        t = name.lower()
+        l = {"name": name, "tagname": "kind", "tag": tagprop(style, t, i, [x.lower() for x in SITE_LEAVES[:n]])}
+        if alt:
+            l["alt"] = "type2"
+        out.append(l)
+    return out
+
+
+def site_mapping(mode, members):
+    if mode == "implicit":
+        return None
+    m = [[x.lower(), x] for x in members]
+    if mode == "multi":
+        m.append(["crew", members[-1]])
+    if mode == "partial":
+        m = m[:-1]
+    return m
+
+
+def site_family(spelling, kind, n, style, mode, req, nb, all_schemas):
+    pos, arr, wrap, on, typenull = spelling
+    members = SITE_LEAVES[:n]
+    alt = bool(nb and nb[0] == "prop")
+    d = {"leaves": site_leaves(n, style, alt), "sites": []}
+    main = {"id": "m", "pos": pos, "holder": "Mid", "field": "mid", "req": req, "kind": kind, "members": members, "arr": arr, "wrap": wrap, "typenull": typenull,
+            "disc": {"prop": "kind", "mapping": site_mapping(mode, members), "on": on}}
+    d["sites"].append(main)
+    if nb:
+        what, where, order = nb
+        name = "Aaa" if order == "before" else "Zzz"
+        disc = None
+        if what == "prop":
+            disc = {"prop": "type2", "mapping": [[x.lower(), x] for x in members], "on": "inner"}
+        if what == "map":
+            disc = {"prop": "kind", "mapping": [["x" + x.lower(), x] for x in members], "on": "inner"}
+        t = {"id": "n", "kind": "oneOf", "members": list(reversed(members)), "disc": disc, "arr": where == "items", "wrap": None, "typenull": False}
+        if where == "named":
+            t.update(pos="named", holder=name)
+        elif where == "samefield":
+            if pos != "field":
+                return None
+            t.update(pos="field", holder="Mid", field=name.lower())
+        else:
+            t.update(pos="field", holder=name, field="f")
+        d["sites"].append(t)
+    return {"op": "disc.site", "in": {"d": d, "all": bool(all_schemas)}}
+
+
+def site_structured():
+    out = []
+    for spelling, kind, (n, mode), style, nb in itertools.product(
+            SPELLINGS, ["oneOf", "anyOf"], [(2, "full"), (2, "multi"), (2, "implicit"), (3, "full"), (3, "partial")], ["plain", "const", "enum"], NEIGHBOURS):
+        c = site_family(spelling, kind, n, style, mode, spelling[0] == "field" and kind == "oneOf", nb, False)
+        if c is not None:
+            out.append(c)
+    return out
+
+
+HOLDERS = ["Aaa", "Mid", "Zzz", "Bin", "Audit", "Notification"]      # (not `Box`: a schema of that name shadows std Box in the emitted file — C09)
+FIELDS = ["a", "mid", "z", "items", "target_kind"]
+
+
+def site_random(r):
+    n = r.randint(2, 4)
+    names = r.sample(["User", "Team", "Squad", "Bot", "Org", "Crew"], n)
+    props = ["kind"] if r.random() < 0.6 else ["kind", "type2"]
+    leaves = []
+    for x in names:
+        style = r.choice(["plain", "plain", "const", "enum", "enum1"])
+        tg = {"plain": ["plain"], "const": ["const", x.lower()], "enum": ["enum", [x.lower(), x.lower() + "2"]], "enum1": ["enum", [x.lower()]]}[style]
+        l = {"name": x, "tagname": "kind", "tag": tg}
+        if len(props) > 1:
+            l["alt"] = "type2"
+        if r.random() < 0.15:
+            l["tagreq"] = False
+        if r.random() < 0.15:
+            l["ownreq"] = True
+        leaves.append(l)
+    sites, used_named, used_fields = [], set(), set()
+    for k in range(r.randint(1, 5)):
+        pos = r.choice(["named", "field", "field", "io"])
+        members = r.sample(names, r.randint(2, min(3, n))) if r.random() < 0.5 else list(names[:2])
+        if r.random() < 0.3:
+            members = list(reversed(members))
+        disc = None
+        if r.random() < 0.75:
+            prop = r.choice(props)
+            mode = r.choice(["full", "full", "multi", "partial", "implicit", "odd"])
+            m = site_mapping(mode if mode != "odd" else "full", members)
+            if mode == "odd":
+                m = [[r.choice(TAGS), x] for x in members]
+                m = list({t: [t, x] for t, x in m}.values())
+            if prop == "type2" and m is None:
+                m = [[x.lower(), x] for x in members]
+            disc = {"prop": prop, "mapping": m, "on": r.choice(["inner", "inner", "outer"])}
+        arr = r.random() < 0.25
+        wrap = r.choice([None, None, "oneOf", "anyOf"])
+        if pos == "field" and arr and wrap:
+            wrap = None          # `[array-of-union, null]` at a property: an enum around the array, outside the modelled grammar
+        st = {"id": "s%d" % k, "pos": pos, "kind": r.choice(["oneOf", "oneOf", "anyOf"]), "members": members, "disc": disc, "arr": arr, "wrap": wrap,
+              "typenull": (not arr and not wrap and r.random() < 0.15)}
+        if pos == "named":
+            free = [h for h in HOLDERS if h not in used_named and not any(h == f[0] for f in used_fields)]
+            if not free:
+                continue
+            st["holder"] = r.choice(free)
+            used_named.add(st["holder"])
+        elif pos == "field":
+            free = [(h, f) for h in HOLDERS for f in FIELDS if h not in used_named and (h, f) not in used_fields]
+            st["holder"], st["field"] = r.choice(free)
+            used_fields.add((st["holder"], st["field"]))
+            st["req"] = r.random() < 0.4
+        sites.append(st)
+    # a body/response schema IDENTICAL to an inline schema written at a property (or as array items) whose own type is
+    # never emitted — the property was typed serde_json::Value, a component union or an earlier inline union — gets the
+    # PRE-COMPUTED name of that never-emitted type: dangling type name, the file does not compile.  A C01 matter
+    # (DESIGN §12.9); such documents are not generated.
+    def parts(x):
+        j = site_union(x)
+        out = [j]
+        inner = j
+        if x["wrap"]:
+            inner = j[x["wrap"]][0]
+            out.append(inner)
+        if x["arr"]:
+            out.append(inner["items"])
+        return {json.dumps(p, sort_keys=True) for p in out}
+    inline_parts = set()
+    for x in sites:
+        if x["pos"] == "field" or (x["pos"] == "named" and x["arr"]):
+            inline_parts |= parts(x) if x["pos"] == "field" else {json.dumps(site_union(dict(x, arr=False, wrap=None)), sort_keys=True)}
+    sites = [x for x in sites if not (x["pos"] == "io" and parts(x) & inline_parts)]
+    if not sites:
+        return site_random(r)
+    nops = len({s["holder"] for s in sites if s["pos"] != "io"}) + sum(1 for s in sites if s["pos"] == "io")
+    if nops > 9:
+        return site_random(r)
+    return {"op": "disc.site", "in": {"d": {"leaves": leaves, "sites": sites}, "all": r.random() < 0.25}}
+
+
+def site_cases(ctx):
+    r = ctx.rng
+    st = site_structured()
+    if ctx.quick:
+        st = r.sample(st, 1800)
+    return st + [site_random(r) for _ in range(1200 if ctx.quick else 6000)]
+
+
+# ------------------------------------------------------------------------------------------------
 # arena (tie A, thorough tier)
 
 def instance(spec, leaf, prop, tag):
@@ -302,6 +476,14 @@ def dbg_chain(s):
         s = s[m.end():]
 
 
+def has_impl(code, name, trait):
+    """does the emitted file give `name` the serde `trait` (derive or hand-written impl)?"""
+    if re.search(r"impl(<'de>)?\s+serde::%s(<'de>)?\s+for\s+%s\b" % (trait, re.escape(name)), code):
+        return True
+    m = re.search(r"((?:#\[[^\]]*\]\s*)+)pub\s+(?:enum|struct)\s+%s\b" % re.escape(name), code)
+    return bool(m and re.search(r"derive\([^)]*\b%s\b" % trait, m.group(1)))
+
+
 def arena(ctx, subset):
     adir = os.path.join(vlib.CACHE, "arena-c14")
     src = os.path.join(adir, "src")
@@ -321,6 +503,34 @@ def arena(ctx, subset):
         if not code or "probes" not in a:
             continue
         enums = (t["impl"]["emitted"] or {}).get("enums", {})
+        if c["op"] == "disc.site":
+            # use sites: the element document is decoded as the CORE type the site has in the emitted code
+            arr_of = {}
+            for st in c["in"]["d"]["sites"]:
+                for sid in ([st["id"] + ".b", st["id"] + ".r"] if st["pos"] == "io" else [st["id"]]):
+                    arr_of[sid] = bool(st.get("arr"))
+            core_of = {x["id"]: x for x in t["impl"].get("sites") or []}
+            sp = []
+            for p in a["probes"]:
+                si = core_of.get(p["site"])
+                if not si or si["kind"] not in ("tag", "untagged") or p["dec"] == "untyped":
+                    continue
+                if not (has_impl(code, si["core"], "Deserialize") and has_impl(code, si["core"], "Serialize")):
+                    continue
+                sp.append(dict(p, ty=si["core"], wrap_array=arr_of.get(p["site"], False) and p["vec"] == 0))
+            if not sp:
+                continue
+            open(os.path.join(src, f"g{i}.rs"), "w").write(strip_header(code))
+            mods.append(f"mod g{i};")
+            for j, p in enumerate(sp):
+                doc = json.dumps(instance(sent[i]["in"]["spec"], p["leaf"], p["prop"], p["tag"]), ensure_ascii=False)
+                if p["wrap_array"]:
+                    doc = "[" + doc + "]"       # the schema says array, the emitted type is not one
+                pid = f"{i}:{j}"
+                h = "#" * (max((len(m) for m in re.findall(r'"(#*)', doc)), default=0) + 1)
+                calls.append(f'  probe::<g{i}::{p["ty"]}>("{pid}", r{h}"{doc}"{h});')
+                expect[pid] = (c, p, enums[p["ty"]], doc)
+            continue
         probes = [p for p in a["probes"] if p["ty"] in enums and enums[p["ty"]].get("de") and enums[p["ty"]].get("ser")]
         if not probes:
             continue
@@ -357,6 +567,15 @@ def arena(ctx, subset):
         obs_accept = bool(o.get("ok"))
         obs_first = vty.get(dbg_chain(o.get("dbg", ""))[0]) if obs_accept and dbg_chain(o.get("dbg", "")) else None
         obs_retag = o.get("out", {}).get(p["prop"]) if obs_accept and isinstance(o.get("out"), dict) else None
+        if "site" in p:
+            # Sem.siteDecode: rejected | member ty (+ re-encoded tag); an array document against a non-array core type is rejected
+            if p["wrap_array"] or p["dec"] == "rejected":
+                agree = not obs_accept
+            else:
+                agree = (obs_accept, obs_first, obs_retag) == (True, p["dec"]["member"], p["retag"])
+            if not agree:
+                bad.append({"case": c, "probe": p, "doc": doc, "observed": o})
+            continue
         exp_first = p["first"] if p["accept"] else None
         if p["valid"]:
             agree = (obs_accept, obs_first, obs_retag) == (p["accept"], exp_first, p["retag"] if p["accept"] else None)
@@ -383,22 +602,35 @@ def run(ctx):
     ctx.prepare = prepare
     if driver_ok and ctx.build_harness(["k_disc"]):
         corpus = vlib_corpus(ctx)
-        allc = corpus + cases(ctx)
-        B = 300
-        for i in range(0, len(allc), B):
-            ctx.classify(ctx.evaluate(allc[i:i + B], tie="K+E"), tie="K+E")
-            if len(ctx.violations) >= 3:
-                break
+        allc = corpus + cases(ctx) + site_cases(ctx)
+        B = 250
+        batches = [allc[i:i + B] for i in range(0, len(allc), B)]
+        # implementation + driver runs of the batches are independent processes: run them side by side, classify in order
+        from concurrent.futures import ThreadPoolExecutor
+        with ThreadPoolExecutor(max_workers=min(8, os.cpu_count() or 2)) as ex:
+            def ev(batch):
+                triples = ctx.run_impl([prepare(c) for c in batch])
+                return list(zip(batch, triples, ctx.run_model(triples)))
+            ctx._bin = "hk"
+            futs = [ex.submit(ev, b) for b in batches]
+            for b, f in zip(batches, futs):
+                if len(ctx.violations) >= 3:
+                    f.cancel()
+                    continue
+                ctx.ties["K+E"] = ctx.ties.get("K+E", 0) + len(b)
+                ctx.classify(f.result(), tie="K+E")
         if not ctx.quick and not ctx.violations:
             st = structured(ctx)
-            subset = corpus + ctx.rng.sample(st, 160) + [random_case(ctx.rng) for _ in range(140)]
+            subset = (corpus + ctx.rng.sample(st, 160) + [random_case(ctx.rng) for _ in range(140)]
+                      + ctx.rng.sample(site_structured(), 160) + [site_random(ctx.rng) for _ in range(120)])
             arena(ctx, subset)
     return ctx.finish(
         checker_cmd="lake build Oas3Model.Props.C14 && #print axioms on every theorem" + ("" if ctx.quick else " && leanchecker"),
         trusted_base=vlib.TRUSTED_BASE + [
             "Sem layer Oas3.Discr.decT/encodeTag/structAccepts (meaning of the emitted match-on-tag Deserialize, delegating Serialize, serde skip/skip_deserializing/default/deny_unknown_fields) — validated against compiled code by the arena tie in the thorough tier, not proved",
             "syn-based extraction of emitted enums/impls/struct attributes (harness/src/k_disc.rs); odd shapes are mapped to values the model never produces",
-            "abstraction of the OpenAPI document to Oas3.Discr.Spec in the Lean driver (Driver/Discr.lean)"],
-        rule="bounded-exhaustive families {oneOf,anyOf} x {1..3 members} x {full,partial,multi-tag,3 tags,implicit-by-const} x {plain,const,enum-typed,mixed tag property} x {additionalProperties:false} x {second union sharing a child: same/different tag, before/after in name order, implicit} x {nested union} x {operation roots} x {all-schemas}; allOf bases {1..3 children} x {full,partial,multi} x {inline/own child form} x {child const override} x {enum-typed base tag} x {grandchild} x {operation roots: base only, base+first, base+all, child only} x {--only filters} x {all-schemas} (all ~24k in thorough, 2500 sampled in quick) + random configurations (2-5 leaves, 0-3 unions, 0-2 bases, exotic tags/property names, shuffled); each is generated in-process by /repo's generator, facts extracted with syn, compared with the model and JUDGED; thorough: 300+ specs compiled and executed in the arena; non-trivial = has a discriminator; distinct by input hash",
+            "abstraction of the OpenAPI document to Oas3.Discr.Spec in the Lean driver (Driver/Discr.lean)",
+            "use sites: Sem.firstAccepting/shapeAccepts/siteDecode (serde `untagged` = first variant whose struct accepts; required keys and enum-typed fields are read from the EMITTED structs, for the implementation's and for the model's verdict alike) — validated by the arena in the thorough tier; syn extraction of the type at a site (k_disc.rs::site_types); recognition of the site spelling in Driver/Discr.lean::siteSchOf (unrecognised spellings are refused, not defaulted)"],
+        rule="bounded-exhaustive families {oneOf,anyOf} x {1..3 members} x {full,partial,multi-tag,3 tags,implicit-by-const} x {plain,const,enum-typed,mixed tag property} x {additionalProperties:false} x {second union sharing a child: same/different tag, before/after in name order, implicit} x {nested union} x {operation roots} x {all-schemas}; allOf bases {1..3 children} x {full,partial,multi} x {inline/own child form} x {child const override} x {enum-typed base tag} x {grandchild} x {operation roots: base only, base+first, base+all, child only} x {--only filters} x {all-schemas} (all ~24k in thorough, 2500 sampled in quick) + random configurations (2-5 leaves, 0-3 unions, 0-2 bases, exotic tags/property names, shuffled); each is generated in-process by /repo's generator, facts extracted with syn, compared with the model and JUDGED; thorough: 300+ specs compiled and executed in the arena; non-trivial = has a discriminator; distinct by input hash.  USE SITES (op disc.site): positions {component, property req/opt, request body + response} x spellings {union, type:[object,null], array of union, nullable wrapper oneOf/anyOf around union or array, discriminator inner/outer} x {oneOf,anyOf} x {full, multi-tag, implied, 3 members full/partial} x tag property {plain, const, enum-typed} x neighbours {none, plain / other property / other mapping twin over the same member set as component, property of another or the same holder, array items; before/after in name order} (15510 documents; 1800 sampled in quick) + random site documents (2-4 overlapping members, 1-5 sites); thorough: +280 site documents compiled, element documents decoded at the site's core type",
         assumptions=["schema names are valid Rust type names (to_rust_type_name is the identity on them)", "union members and mapping targets are `#/components/schemas/…` references; inline members are out of scope",
                      "a valid document for mapping entry tag↦S carries the tag and the properties of S; entries whose tag S's own tag property forbids (const/enum) have no valid document and are not judged"])
